@@ -24,6 +24,7 @@ class E4:
         self.an.rule_c06a = rule_c06a
         self.an.force_ret = dict(force_ret or {})
         self.an.opaque = list(opaque)
+        self.an.wrap_obligations = (facts.config == 'release')
         self.times = {}
 
     def summarize(self, key):
